@@ -86,6 +86,29 @@ def offKey (p : Int × CpRec) : Int := p.2.offset.getD (-1)
 def AscGone (cps : Recs) (gone : Int → Bool) : Prop :=
   ∀ p ∈ cps, ∀ q ∈ cps, gone q.1 = true → offKey p < offKey q → gone p.1 = true
 
+/-- decidable form of `AscGone` (`Props.C07.ascGoneB_spec`); the driver evaluates it on what
+    the REAL `ResetStartPoint` had deleted at every cut -/
+def ascGoneB (cps : Recs) (gone : Int → Bool) : Bool :=
+  cps.all (fun p => cps.all (fun q => !(gone q.1) || !(decide (offKey p < offKey q)) || gone p.1))
+
+/-- `DelCheckpoints`' order as a function: the records sorted by (offset, database) ascending
+    (Go: `sort.SliceStable` by (offset, mtime, db) over database x label; the model has one record
+    per database and no mtime -- `Props.C07.ascGone_of_sorted_prefix` holds for ANY order that is
+    ascending in the offsets, whatever breaks the ties) -/
+def insAsc (p : Int × CpRec) : Recs → Recs
+  | [] => [p]
+  | q :: rest =>
+    if offKey p < offKey q ∨ (offKey p = offKey q ∧ p.1 ≤ q.1) then p :: q :: rest
+    else q :: insAsc p rest
+
+def delOrder (cps : Recs) : Recs := cps.foldr insAsc []
+
+/-- the databases whose record is gone when `DelCheckpoints` is cut after `k` deletions of `l` -/
+def gonePrefix (l : Recs) (k : Nat) : Int → Bool := fun d => (l.take k).any (fun q => q.1 == d)
+
+/-- `ResetStartPoint` cut after `k` deletions (`k ≥` the number of records: complete) -/
+def resetCutCps (cps : Recs) (k : Nat) : Recs := resetCps cps (gonePrefix (delOrder cps) k)
+
 /-- one life of the replay loop (`Props.C07.nextT`) -/
 def lifeT (c : SCfg) (t : TState) (evs : List Ev) (k : Nat) : TState :=
   crash (applyLog (crash t) ((run c initS evs).2.flatten.take k))
